@@ -1,72 +1,2 @@
-(* GENERATED by vp/translate_attrs.py from SpectrumResult.__getattr__ (speckit/analysis.py) — do not edit. *)
-From Coq Require Import ZArith List Bool String.
-From SK Require Import Arith Cpx.
-Import ListNotations.
-Open Scope string_scope.
-
-(* external functions (np.sqrt, np.arcsin, np.rad2deg, control.mag2db, np.angle, np.unwrap) *)
-Record fns (A : Arith) := mkFns { sqrtT : T A -> T A; asinT : T A -> T A; rad2degT : T A -> T A; mag2dbT : T A -> T A;
-                                  angleT : T A * T A -> T A; unwrapT : T A -> T A }.
-Record env (A : Arith) := mkEnv { e_XX : T A; e_YY : T A; e_S2 : T A; e_S12 : T A; e_M2 : T A; e_navg : T A; e_fs : T A; e_XY : T A * T A }.
-Arguments e_XX {A}. Arguments e_YY {A}. Arguments e_S2 {A}. Arguments e_S12 {A}. Arguments e_M2 {A}. Arguments e_navg {A}. Arguments e_fs {A}. Arguments e_XY {A}.
-
-Definition g_Gxx_auto (A : Arith) (F : fns A) (e : env A) : T A := (if (negb (eqb A (e_S2 e) (ofZ A 0))) then (div A (mul A (ofZ A 2) (e_XX e)) (mul A (e_fs e) (e_S2 e))) else (zero A)).
-Definition g_Gyy_auto (A : Arith) (F : fns A) (e : env A) : T A := (g_Gxx_auto A F e).
-Definition g_Gxy_auto (A : Arith) (F : fns A) (e : env A) : T A := (g_Gxx_auto A F e).
-Definition g_ENBW_auto (A : Arith) (F : fns A) (e : env A) : T A := (if (negb (eqb A (e_S12 e) (ofZ A 0))) then (div A (mul A (e_fs e) (e_S2 e)) (e_S12 e)) else (zero A)).
-Definition g_psd_auto (A : Arith) (F : fns A) (e : env A) : T A := (g_Gxx_auto A F e).
-Definition g_asd_auto (A : Arith) (F : fns A) (e : env A) : T A := (sqrtT A F (g_psd_auto A F e)).
-Definition g_ps_auto (A : Arith) (F : fns A) (e : env A) : T A := (mul A (g_psd_auto A F e) (g_ENBW_auto A F e)).
-Definition g_Gxx_dev_auto (A : Arith) (F : fns A) (e : env A) : T A := (div A (g_Gxx_auto A F e) (sqrtT A F (e_navg e))).
-Definition g_Gyy_dev_auto (A : Arith) (F : fns A) (e : env A) : T A := (g_Gxx_dev_auto A F e).
-Definition g_Gxx_error_auto (A : Arith) (F : fns A) (e : env A) : T A := (div A (ofZ A 1) (sqrtT A F (e_navg e))).
-Definition g_Gyy_error_auto (A : Arith) (F : fns A) (e : env A) : T A := (g_Gxx_error_auto A F e).
-Definition g_XX_mean_auto (A : Arith) (F : fns A) (e : env A) : T A := (nan2num A (e_XX e)).
-Definition g_YY_mean_auto (A : Arith) (F : fns A) (e : env A) : T A := (nan2num A (e_XX e)).
-Definition g_XY_M2_auto (A : Arith) (F : fns A) (e : env A) : T A := (nan2num A (e_M2 e)).
-Definition g_XY_emp_var_auto (A : Arith) (F : fns A) (e : env A) : T A := (nan2num A (if (ltb A (ofZ A 0) (nan2num A (e_navg e))) then (div A (nan2num A (e_M2 e)) (nan2num A (e_navg e))) else (zero A))).
-Definition g_XY_emp_dev_auto (A : Arith) (F : fns A) (e : env A) : T A := (sqrtT A F (nan2num A (if (ltb A (ofZ A 0) (nan2num A (e_navg e))) then (div A (nan2num A (e_M2 e)) (nan2num A (e_navg e))) else (zero A)))).
-Definition g_Gxx_emp_dev_auto (A : Arith) (F : fns A) (e : env A) : T A := (mul A (if (ltb A (ofZ A 0) (nan2num A (e_S2 e))) then (div A (ofZ A 2) (mul A (e_fs e) (nan2num A (e_S2 e)))) else (zero A)) (nan2num A (sqrtT A F (if (ltb A (ofZ A 0) (nan2num A (e_navg e))) then (div A (nan2num A (e_M2 e)) (nan2num A (e_navg e))) else (zero A))))).
-Definition g_G_auto (A : Arith) (F : fns A) (e : env A) : T A := (g_Gxx_auto A F e).
-Definition g_Gxx_csd (A : Arith) (F : fns A) (e : env A) : T A := (if (negb (eqb A (e_S2 e) (ofZ A 0))) then (div A (mul A (ofZ A 2) (e_XX e)) (mul A (e_fs e) (e_S2 e))) else (zero A)).
-Definition g_Gyy_csd (A : Arith) (F : fns A) (e : env A) : T A := (if (negb (eqb A (e_S2 e) (ofZ A 0))) then (div A (mul A (ofZ A 2) (e_YY e)) (mul A (e_fs e) (e_S2 e))) else (zero A)).
-Definition g_Gxy_csd (A : Arith) (F : fns A) (e : env A) : T A * T A := (if (negb (eqb A (e_S2 e) (ofZ A 0))) then (cdivr A (cscale A (ofZ A 2) (e_XY e)) (mul A (e_fs e) (e_S2 e))) else (czero A)).
-Definition g_ENBW_csd (A : Arith) (F : fns A) (e : env A) : T A := (if (negb (eqb A (e_S12 e) (ofZ A 0))) then (div A (mul A (e_fs e) (e_S2 e)) (e_S12 e)) else (zero A)).
-Definition g_csd_csd (A : Arith) (F : fns A) (e : env A) : T A * T A := (g_Gxy_csd A F e).
-Definition g_Gyx_csd (A : Arith) (F : fns A) (e : env A) : T A * T A := (cconj A (g_Gxy_csd A F e)).
-Definition g_Hxy_csd (A : Arith) (F : fns A) (e : env A) : T A * T A := (if (negb (eqb A (e_XX e) (ofZ A 0))) then (cdivr A (cconj A (e_XY e)) (e_XX e)) else (czero A)).
-Definition g_Hyx_csd (A : Arith) (F : fns A) (e : env A) : T A * T A := (cconj A (g_Hxy_csd A F e)).
-Definition g_coh_csd (A : Arith) (F : fns A) (e : env A) : T A := (mul A (if (andb (negb (eqb A (e_XX e) (ofZ A 0))) (negb (eqb A (e_YY e) (ofZ A 0)))) then (div A (cabs A (sqrtT A F) (e_XY e)) (e_XX e)) else (zero A)) (if (andb (negb (eqb A (e_XX e) (ofZ A 0))) (negb (eqb A (e_YY e) (ofZ A 0)))) then (div A (cabs A (sqrtT A F) (e_XY e)) (e_YY e)) else (zero A))).
-Definition g_ccoh_csd (A : Arith) (F : fns A) (e : env A) : T A * T A := (if (andb (negb (eqb A (e_XX e) (ofZ A 0))) (negb (eqb A (e_YY e) (ofZ A 0)))) then (cdivr A (e_XY e) (mul A (sqrtT A F (e_XX e)) (sqrtT A F (e_YY e)))) else (czero A)).
-Definition g_cs_csd (A : Arith) (F : fns A) (e : env A) : T A * T A := (cscale A (g_ENBW_csd A F e) (g_csd_csd A F e)).
-Definition g_tf_csd (A : Arith) (F : fns A) (e : env A) : T A * T A := (g_Hxy_csd A F e).
-Definition g_cf_csd (A : Arith) (F : fns A) (e : env A) : T A := (cabs A (sqrtT A F) (g_Hxy_csd A F e)).
-Definition g_cf_db_csd (A : Arith) (F : fns A) (e : env A) : T A := (mag2dbT A F (g_cf_csd A F e)).
-Definition g_cf_rad_csd (A : Arith) (F : fns A) (e : env A) : T A := (angleT A F (g_Hxy_csd A F e)).
-Definition g_cf_deg_csd (A : Arith) (F : fns A) (e : env A) : T A := (rad2degT A F (angleT A F (g_Hxy_csd A F e))).
-Definition g_cf_rad_unwrapped_csd (A : Arith) (F : fns A) (e : env A) : T A := (unwrapT A F (g_cf_rad_csd A F e)).
-Definition g_cf_deg_unwrapped_csd (A : Arith) (F : fns A) (e : env A) : T A := (rad2degT A F (g_cf_rad_unwrapped_csd A F e)).
-Definition g_GyyCx_csd (A : Arith) (F : fns A) (e : env A) : T A := (mul A (g_coh_csd A F e) (g_Gyy_csd A F e)).
-Definition g_GyyRx_csd (A : Arith) (F : fns A) (e : env A) : T A := (mul A (sub A (ofZ A 1) (g_coh_csd A F e)) (g_Gyy_csd A F e)).
-Definition g_GyySx_csd (A : Arith) (F : fns A) (e : env A) : T A := (cabs A (sqrtT A F) (csub A (csub A (cadd A (ofR A (g_Gyy_csd A F e)) (cscale A (g_Gxx_csd A F e) (cmul A (g_Hxy_csd A F e) (g_Hyx_csd A F e)))) (cmul A (g_Hxy_csd A F e) (g_Gxy_csd A F e))) (cmul A (g_Hyx_csd A F e) (g_Gyx_csd A F e)))).
-Definition g_Gxx_dev_csd (A : Arith) (F : fns A) (e : env A) : T A := (div A (g_Gxx_csd A F e) (sqrtT A F (e_navg e))).
-Definition g_Gyy_dev_csd (A : Arith) (F : fns A) (e : env A) : T A := (div A (g_Gyy_csd A F e) (sqrtT A F (e_navg e))).
-Definition g_Gxy_dev_csd (A : Arith) (F : fns A) (e : env A) : T A := (div A (cabs A (sqrtT A F) (g_Gxy_csd A F e)) (sqrtT A F (mul A (g_coh_csd A F e) (e_navg e)))).
-Definition g_Hxy_dev_csd (A : Arith) (F : fns A) (e : env A) : T A := (div A (mul A (cabs A (sqrtT A F) (g_Hxy_csd A F e)) (sqrtT A F (rabs A (sub A (ofZ A 1) (g_coh_csd A F e))))) (sqrtT A F (mul A (mul A (g_coh_csd A F e) (ofZ A 2)) (e_navg e)))).
-Definition g_coh_dev_csd (A : Arith) (F : fns A) (e : env A) : T A := (sqrtT A F (rabs A (mul A (div A (mul A (ofZ A 2) (g_coh_csd A F e)) (e_navg e)) (mul A (sub A (ofZ A 1) (g_coh_csd A F e)) (sub A (ofZ A 1) (g_coh_csd A F e)))))).
-Definition g_Gxx_error_csd (A : Arith) (F : fns A) (e : env A) : T A := (div A (ofZ A 1) (sqrtT A F (e_navg e))).
-Definition g_Gyy_error_csd (A : Arith) (F : fns A) (e : env A) : T A := (div A (ofZ A 1) (sqrtT A F (e_navg e))).
-Definition g_Gxy_error_csd (A : Arith) (F : fns A) (e : env A) : T A := (div A (ofZ A 1) (sqrtT A F (mul A (g_coh_csd A F e) (e_navg e)))).
-Definition g_Hxy_mag_error_csd (A : Arith) (F : fns A) (e : env A) : T A := (div A (sqrtT A F (rabs A (sub A (ofZ A 1) (g_coh_csd A F e)))) (sqrtT A F (mul A (mul A (g_coh_csd A F e) (ofZ A 2)) (e_navg e)))).
-Definition g_Hxy_rad_error_csd (A : Arith) (F : fns A) (e : env A) : T A := (div A (asinT A F (sqrtT A F (rabs A (sub A (ofZ A 1) (g_coh_csd A F e))))) (sqrtT A F (mul A (mul A (g_coh_csd A F e) (ofZ A 2)) (e_navg e)))).
-Definition g_Hxy_deg_error_csd (A : Arith) (F : fns A) (e : env A) : T A := (rad2degT A F (g_Hxy_rad_error_csd A F e)).
-Definition g_coh_error_csd (A : Arith) (F : fns A) (e : env A) : T A := (div A (mul A (sqrtT A F (ofZ A 2)) (sub A (ofZ A 1) (g_coh_csd A F e))) (mul A (sqrtT A F (g_coh_csd A F e)) (sqrtT A F (e_navg e)))).
-Definition g_XX_mean_csd (A : Arith) (F : fns A) (e : env A) : T A := (nan2num A (e_XX e)).
-Definition g_YY_mean_csd (A : Arith) (F : fns A) (e : env A) : T A := (nan2num A (e_YY e)).
-Definition g_XY_M2_csd (A : Arith) (F : fns A) (e : env A) : T A := (nan2num A (e_M2 e)).
-Definition g_XY_emp_var_csd (A : Arith) (F : fns A) (e : env A) : T A := (nan2num A (if (ltb A (ofZ A 0) (nan2num A (e_navg e))) then (div A (nan2num A (e_M2 e)) (nan2num A (e_navg e))) else (zero A))).
-Definition g_XY_emp_dev_csd (A : Arith) (F : fns A) (e : env A) : T A := (sqrtT A F (nan2num A (if (ltb A (ofZ A 0) (nan2num A (e_navg e))) then (div A (nan2num A (e_M2 e)) (nan2num A (e_navg e))) else (zero A)))).
-Definition g_Gxy_emp_dev_csd (A : Arith) (F : fns A) (e : env A) : T A := (mul A (if (ltb A (ofZ A 0) (nan2num A (e_S2 e))) then (div A (ofZ A 2) (mul A (e_fs e) (nan2num A (e_S2 e)))) else (zero A)) (nan2num A (sqrtT A F (if (ltb A (ofZ A 0) (nan2num A (e_navg e))) then (div A (nan2num A (e_M2 e)) (nan2num A (e_navg e))) else (zero A))))).
-
-Definition none_table : list (string * bool) := [("csd", false); ("Gyx", false); ("Hxy", false); ("Hyx", false); ("coh", false); ("ccoh", false); ("cs", false); ("tf", false); ("cf", false); ("cf_db", false); ("cf_rad", false); ("cf_deg", false); ("cf_rad_unwrapped", false); ("cf_deg_unwrapped", false); ("GyyCx", false); ("GyyRx", false); ("GyySx", false); ("Gxy_dev", false); ("Hxy_dev", false); ("coh_dev", false); ("Gxy_error", false); ("Hxy_mag_error", false); ("Hxy_rad_error", false); ("Hxy_deg_error", false); ("coh_error", false); ("Gxy_emp_dev", false); ("psd", true); ("asd", true); ("ps", true); ("Gxx_emp_dev", true); ("G", true)].
-Definition defined_table : list (string * bool) := [("Gxx", false); ("Gyy", false); ("Gxy", false); ("ENBW", false); ("psd", false); ("asd", false); ("ps", false); ("Gxx_dev", false); ("Gyy_dev", false); ("Gxx_error", false); ("Gyy_error", false); ("XX_mean", false); ("YY_mean", false); ("XY_M2", false); ("XY_emp_var", false); ("XY_emp_dev", false); ("Gxx_emp_dev", false); ("G", false); ("Gxx", true); ("Gyy", true); ("Gxy", true); ("ENBW", true); ("csd", true); ("Gyx", true); ("Hxy", true); ("Hyx", true); ("coh", true); ("ccoh", true); ("cs", true); ("tf", true); ("cf", true); ("cf_db", true); ("cf_rad", true); ("cf_deg", true); ("cf_rad_unwrapped", true); ("cf_deg_unwrapped", true); ("GyyCx", true); ("GyyRx", true); ("GyySx", true); ("Gxx_dev", true); ("Gyy_dev", true); ("Gxy_dev", true); ("Hxy_dev", true); ("coh_dev", true); ("Gxx_error", true); ("Gyy_error", true); ("Gxy_error", true); ("Hxy_mag_error", true); ("Hxy_rad_error", true); ("Hxy_deg_error", true); ("coh_error", true); ("XX_mean", true); ("YY_mean", true); ("XY_M2", true); ("XY_emp_var", true); ("XY_emp_dev", true); ("Gxy_emp_dev", true)].
+(* translation failed: Gxx_dev: unsupported statement val /= np.sqrt(navg) *)
+Definition translation_failed : False := I.
